@@ -1,6 +1,7 @@
 package main
 
 import (
+	"fmt"
 	"go/token"
 	"math/bits"
 	"go/types"
@@ -300,5 +301,88 @@ func addEnvIntrinsics(m map[string]intrinsic) {
 		n := c.Concat(hi, lo)
 		d := c.ZExt(y, 64)
 		return []Value{IntV{T: c.Extract(c.UDiv(n, d), 63, 0)}, IntV{T: c.Extract(c.URem(n, d), 63, 0)}}
+	}
+	// *prolly.MutableMap as an abstract dictionary (DESIGN 4.4): an association list of (key bytes, value bytes) per map
+	// object; keys are compared byte for byte (forking on symbolic bytes). Contract assumed: the mutable map is a
+	// dictionary (that the prolly tree implements one is property C11, outside this technique). Only Get, Put, Delete,
+	// NodeStore and HasEdits are modelled.
+	type mmEntry struct{ k, v Value }
+	mmOf := func(p *Path, recv Value) *[]mmEntry {
+		cell := recv.(Ptr).Cell
+		reg, _ := p.userData["mutableMaps"].(map[Cell]*[]mmEntry)
+		if reg == nil {
+			reg = map[Cell]*[]mmEntry{}
+			p.userData["mutableMaps"] = reg
+		}
+		if reg[cell] == nil {
+			reg[cell] = &[]mmEntry{}
+		}
+		return reg[cell]
+	}
+	bytesEq := func(p *Path, a, b Value) bool {
+		sa, sb := p.seqOf(a), p.seqOf(b)
+		if !p.branch(p.ctx.Eq(sa.Len, sb.Len)) {
+			return false
+		}
+		n := p.concLen(sa.Len, "map key length")
+		eq := p.ctx.True
+		for i := 0; i < n; i++ {
+			ix := p.ctx.BV(64, uint64(i))
+			eq = p.ctx.And(eq, p.ctx.Eq(p.seqAt(sa, ix), p.seqAt(sb, ix)))
+		}
+		return p.branch(eq)
+	}
+	m["verif:verifNewMutableMap"] = func(p *Path, fn *ssa.Function, a []Value, pos token.Pos, caller *ssa.Function) []Value {
+		t := fn.Signature.Results().At(0).Type().(*types.Pointer).Elem()
+		return []Value{Ptr{Kind: PCell, Cell: &ScalarCell{V: PoisonV{"abstract mutable map " + t.String()}}}}
+	}
+	m["prolly.MutableMap:Put"] = func(p *Path, fn *ssa.Function, a []Value, pos token.Pos, caller *ssa.Function) []Value {
+		es := mmOf(p, a[0])
+		for i := range *es {
+			if bytesEq(p, (*es)[i].k, a[2]) {
+				(*es)[i].v = a[3]
+				return []Value{IfaceV{}}
+			}
+		}
+		*es = append(*es, mmEntry{a[2], a[3]})
+		return []Value{IfaceV{}}
+	}
+	m["prolly.MutableMap:Delete"] = func(p *Path, fn *ssa.Function, a []Value, pos token.Pos, caller *ssa.Function) []Value {
+		es := mmOf(p, a[0])
+		for i := range *es {
+			if bytesEq(p, (*es)[i].k, a[2]) {
+				*es = append(append([]mmEntry{}, (*es)[:i]...), (*es)[i+1:]...)
+				break
+			}
+		}
+		return []Value{IfaceV{}}
+	}
+	m["prolly.MutableMap:Get"] = func(p *Path, fn *ssa.Function, a []Value, pos token.Pos, caller *ssa.Function) []Value {
+		es := mmOf(p, a[0])
+		cb := a[3].(FuncV)
+		z := p.ctx.BV(64, 0)
+		for i := range *es {
+			if bytesEq(p, (*es)[i].k, a[2]) {
+				return p.invoke(cb, []Value{(*es)[i].k, (*es)[i].v}, pos, caller)
+			}
+		}
+		return p.invoke(cb, []Value{SliceV{Off: z, Len: z, Cap: z}, SliceV{Off: z, Len: z, Cap: z}}, pos, caller)
+	}
+	m["prolly.MutableMap:NodeStore"] = func(p *Path, fn *ssa.Function, a []Value, pos token.Pos, caller *ssa.Function) []Value {
+		return []Value{IfaceV{}}
+	}
+	// xxh3.Hash128 (keyless row ids): an uninterpreted function of the bytes, made collision-free on the inputs of one
+	// path (ideal hash), returned as the two 64-bit halves
+	m["github.com/zeebo/xxh3.Hash128"] = func(p *Path, fn *ssa.Function, a []Value, pos token.Pos, caller *ssa.Function) []Value {
+		s := p.seqOf(a[0])
+		lo := p.ufOverBytes("xxh3lo", 64, nil, s)
+		hi := p.ufOverBytes("xxh3hi", 64, nil, s)
+		n := p.concLen(s.Len, "xxh3 input length")
+		args := make([]*Term, n)
+		for i := range args {
+			args[i] = p.seqAt(s, p.ctx.BV(64, uint64(i)))
+		}
+		p.idealChecksumAxioms(fmt.Sprintf("xxh3lo_%d", n), args, lo)
+		return []Value{StructV{F: []Value{IntV{T: hi}, IntV{T: lo}}}}
 	}
 }
